@@ -91,6 +91,12 @@ func argAny(a argSpec) any {
 // when the item has a shape no generated function returns.
 func encItem(it stackitem.Item, want ty) (string, bool) {
 	switch want {
+	case tVoid:
+		// what the caller of a procedure gets from System.Contract.Call
+		if it.Type() != stackitem.AnyT {
+			return "type:" + it.Type().String(), false
+		}
+		return "v:", true
 	case tInt:
 		if it.Type() != stackitem.IntegerT {
 			return "type:" + it.Type().String(), false
@@ -230,6 +236,8 @@ func runBare(c compiled, md *manifest.Method, args []argSpec, ret ty) (o vmOutco
 	o.stack = itemsJSON(items)
 	if o.n > 0 {
 		o.val, o.valOK = encItem(items[len(items)-1], ret)
+	} else if ret == tVoid {
+		o.val, o.valOK = "v:", true
 	}
 	return
 }
